@@ -73,8 +73,16 @@ class _BatchSpy:
             rec.events.append(dict(e="epoch"))
 
 
+def complete_groups(groups, d):
+    """The documented completion of a partial group list: missing features become singleton groups, in increasing order."""
+    if groups is None:
+        return None
+    seen = {int(i) for g in groups for i in g}
+    return [[int(i) for i in g] for g in groups] + [[i] for i in range(d) if i not in seen]
+
+
 class Recorder:
-    def __init__(self, model, n, mode="fit", decorated=False, direction_check=None, hasaff=None, full_affinity=None):
+    def __init__(self, model, n, mode="fit", decorated=False, direction_check=None, hasaff=None, full_affinity=None, d=None):
         self.model, self.n, self.mode, self.decorated = model, n, mode, decorated
         self.events = []
         self.direction_check = direction_check          # callable(recorder, params, grads) -> bool   (C03)
@@ -84,6 +92,8 @@ class Recorder:
         self.full_affinity = None if full_affinity is None else np.asarray(full_affinity, dtype=float)
         self.affid = bool(self.full_affinity is not None and self.full_affinity.shape == (n, n)
                           and np.array_equal(self.full_affinity, id_affinity(n)))
+        self.d_hint = d
+        self.groups_hint = complete_groups(getattr(model, "groups", None), d) if d else None
         self.t = 0
         self.after_opt = None
         self.prox_calls = []
@@ -94,7 +104,12 @@ class Recorder:
         from sklearn.neural_network import _stochastic_optimizers as so
         m = self.model
         bs = m.batch_size if getattr(m, "batch_size", None) is not None else self.n
-        self.events.append(dict(e="begin", n=self.n, bs=self.n if self.whole else min(int(bs), self.n), maxiter=int(m.max_iter),
+        d_feat = 0
+        groups = []
+        if self.sparse:
+            d_feat = int(getattr(m, "n_features_in_", 0) or self.d_hint or 0)
+            groups = [[int(i) for i in g] for g in (self.groups_hint or [])]
+        self.events.append(dict(e="begin", n=self.n, d=d_feat, groups=groups, bs=self.n if self.whole else min(int(bs), self.n), maxiter=int(m.max_iter),
                                 hasaff=bool(self.hasaff), affid=bool(self.affid), decorated=bool(self.decorated), whole=bool(self.whole),
                                 sparse=bool(self.sparse), mode=self.mode))
         self._so = so
@@ -150,7 +165,8 @@ class Recorder:
 
     def _prox_event(self):
         m = self.model
-        ev = dict(e="prox", thrialpha=False, lrsched=False, applied=False, selok=False, w1zero=True, groupsok=True, finite=False)
+        skip0 = m.W_skip_ if hasattr(m, "W_skip_") else m.W_
+        ev = dict(e="prox", sel=[int(v) for v in np.nonzero(np.any(skip0 != 0, axis=1))[0]], thrialpha=False, lrsched=False, applied=False, selok=False, w1zero=True, groupsok=True, finite=False)
         opt = m.optimiser_
         lr0 = float(opt.learning_rate_init)
         if type(opt).__name__ == "AdamOptimizer":
@@ -285,7 +301,7 @@ def record_fit(model, X, y=None, decorated=False, direction_check=None):
         full = full_affinity_of(model, X, y)
     except Exception:
         full = None
-    rec = Recorder(model, n, "fit", decorated, direction_check, full is not None, full)
+    rec = Recorder(model, n, "fit", decorated, direction_check, full is not None, full, d=np.shape(X)[1])
     err = None
     with rec:
         try:
